@@ -70,7 +70,8 @@ def zone_status_op(gen, zones):
         body = b""
         for z in sorted(zones):
             d = zones[z]
-            t = (((225 + 500) << 5) & 0xFFE0) if d.get("sensor") else 0xFF00
+            # a sensor may be present while its reading is (momentarily) not available: legal, and the zone still takes set-points
+            t = (((225 + 500) << 5) & 0xFFE0) if d.get("sensor") and not d.get("temp_na") else 0xFF00
             body += bytes([(d.get("power", 1) << 6) | z, (d.get("ctrl", 0) << 7) | d.get("damper", 50),
                            (0x40 if d.get("turbo") else 0) | (d.get("setpoint", 22) & 0x3F), 0x80 if d.get("sensor") else 0, t >> 8, t & 0xFF])
         return consolesim.msg(0x2B, body)
@@ -78,7 +79,8 @@ def zone_status_op(gen, zones):
     for z in sorted(zones):
         d = zones[z]
         recs.append([(d.get("power", 1) << 6) | z, (d.get("ctrl", 0) << 7) | d.get("damper", 50), d.get("setpoint", 22) * 10 - 100,
-                     0x80 if d.get("sensor") else 0, (725 >> 8) if d.get("sensor") else 0xFF, (725 & 255) if d.get("sensor") else 0xFF, 0, 0])
+                     0x80 if d.get("sensor") else 0, (725 >> 8) if d.get("sensor") and not d.get("temp_na") else 0xFF,
+                     (725 & 255) if d.get("sensor") and not d.get("temp_na") else 0xFF, 0, 0])
     return consolesim.cs(0x21, 8, recs)
 
 
@@ -610,7 +612,7 @@ def build_install(gen, pairs, k, rng):
                         mode=rng.choice([0, 1, 2, 3, 4]), power=rng.choice([0, 1]), fan=rng.choice([0, 1, 2, 3, 4]), setpoint=rng.randint(18, 26)))
     zones = {}
     for z in range(per * n):
-        zones[z] = dict(sensor=((z + k) % 2 == 0), turbo=(((z >> 1) + k) % 2 == 0), ctrl=rng.choice([0, 1]), power=rng.choice([0, 1, 3]),
+        zones[z] = dict(sensor=((z + k) % 2 == 0), temp_na=((z + k) % 6 == 4), turbo=(((z >> 1) + k) % 2 == 0), ctrl=rng.choice([0, 1]), power=rng.choice([0, 1, 3]),
                         damper=rng.choice([0, 35, 50, 100]), setpoint=rng.randint(18, 26))
     return dict(acs=acs, zones=zones)
 
@@ -618,8 +620,10 @@ def build_install(gen, pairs, k, rng):
 def build_script(gen, inst, plan, rng, counter):
     """counter: a mutable [int] shared by the scripts of one run: drives the systematic timer-state / time-of-day sweep"""
     ops = consolesim.handshake(gen, inst)
-    ops.append("view")
     acs, zones = inst["acs"], inst["zones"]
+    if zones and any(d.get("temp_na") for d in zones.values()):
+        ops.append(zone_status_op(gen, zones))       # some sensors report "reading not available"
+    ops.append("view")
     if plan.enum:
         for a in acs:
             for p in AC_POWER:
